@@ -11,6 +11,7 @@ CONSTANTS
     Dedup = TRUE
     FailCleansUp = TRUE
     MaxDeaths = 1
+    CacheLookup = FALSE
     StopAtFirstError = TRUE
 INVARIANTS
     TypeOK
